@@ -562,13 +562,31 @@ func raceC07(seed uint64, seconds int) {
 		for i := 0; i < 6; i++ {
 			frozen.Handle("/lit/"+string(rune('a'+i)), &H{base: "user:" + strconv.Itoa(10+i), hid: 10 + i}, nil, "GET")
 		}
+		// the build phase ENDS with a Remove and a Clean: whatever they leave to be recomputed must be recomputed by them,
+		// not by the first requests of the quiescent phase
+		frozen.Handle("/tmp/x", &H{base: "user:30", hid: 30}, nil, "PUT")
+		frozen.Handle("/old/{id}", &H{base: "user:31", hid: 31}, nil, "DELETE")
+		frozen.Remove("/tmp/x")
+		frozen.Prefix("/old").Clean()
+		rootAllow := func() {
+			for _, m := range []string{"OPTIONS", "GET"} {
+				res, fault := serveOnce(frozen, m, "*")
+				if fault != nil || res == nil || res.allow != "GET, OPTIONS, POST" {
+					rep.badf("frozen: %s * answered %+v %v; the live methods are GET, POST", m, res, fault)
+				}
+			}
+		}
 		for gi := 0; gi < 8; gi++ {
 			wg.Add(1)
 			go func(gi int) {
 				defer wg.Done()
 				rg := rand.New(rand.NewPCG(seed, uint64(gi)+500))
+				rootAllow() // every reader starts with the router-wide answer: the first requests after the build phase overlap
 				for !stop.Load() {
 					id, page := strconv.Itoa(rg.IntN(1000)), strconv.Itoa(rg.IntN(1000))
+					if rg.IntN(16) == 0 {
+						rootAllow()
+					}
 					switch rg.IntN(4) {
 					case 0:
 						res, fault := serveOnce(frozen, "GET", "/u/"+id+"/p/"+page)
